@@ -42,6 +42,19 @@ func (r *Region) Place(b []byte) []byte {
 	return r.mem[r.start:r.data:r.data]
 }
 
+// PlaceWithRoom is Place with room bytes of spare capacity behind the input (read-only as well, filled with 0xC3): the
+// returned slice has len(b) and cap len(b)+room. An append or re-slice that writes into the caller's spare capacity faults.
+func (r *Region) PlaceWithRoom(b []byte, room int) []byte {
+	syscall.Mprotect(r.mem[:r.data], syscall.PROT_READ|syscall.PROT_WRITE)
+	r.start = r.data - len(b) - room
+	copy(r.mem[r.start:], b)
+	for i := r.start + len(b); i < r.data; i++ {
+		r.mem[i] = 0xC3
+	}
+	syscall.Mprotect(r.mem[:r.data], syscall.PROT_READ)
+	return r.mem[r.start : r.start+len(b) : r.data]
+}
+
 // Classify tells what a faulting address means.
 func (r *Region) Classify(addr uintptr) string {
 	base := uintptr(unsafe.Pointer(&r.mem[0]))
